@@ -184,6 +184,20 @@ def session_probes(run, an):
                 dl = sum(1 for ld, _ in pl.tricks if ld == pl.dummy)
                 if dl:
                     p['dummy_on_lead'] = p.get('dummy_on_lead', 0) + dl
+                if pl.trump:
+                    for ld, cs in pl.tricks:
+                        if cs[0][0] == pl.trump:
+                            continue
+                        ruffs = [c for c in cs[1:] if c[0] == pl.trump]
+                        if len(ruffs) >= 2:
+                            p['tricks_with_2+_ruffs'] = p.get('tricks_with_2+_ruffs', 0) + 1
+                        if len(ruffs) == 3:
+                            p['tricks_with_3_ruffs'] = p.get('tricks_with_3_ruffs', 0) + 1
+                            from model import refbridge as _rb
+                            r = [_rb.RANKS.index(c[1]) for c in ruffs]
+                            if r[1] > r[2] > r[0]:
+                                p['overruff_then_lower_ruff_above_first'] = \
+                                    p.get('overruff_then_lower_ruff_above_first', 0) + 1
     for dec, now, role, kind, obj, detail in run.sim.log:
         if kind == 'thread.alive' and detail is True:
             pass
